@@ -2043,6 +2043,15 @@ def unroll_constant_tables(repo, ref):
                             and all(isinstance(e_, (ast.Name, ast.Constant)) for e_ in it.elts):
                         rows = list(it.elts)
                         key = (fi.module.name, None, "<display>")
+                if rows is None and isinstance(it, ast.Call) and isinstance(it.func, ast.Attribute) and it.func.attr == "items" and not it.args and not it.keywords \
+                        and isinstance(it.func.value, ast.Dict) and len(it.func.value.keys) <= 8 \
+                        and all(isinstance(k_, ast.Constant) and isinstance(k_.value, str) for k_ in it.func.value.keys) \
+                        and len({k_.value for k_ in it.func.value.keys}) == len(it.func.value.keys) and all(isinstance(v_, (ast.Name, ast.Constant)) for v_ in it.func.value.values):
+                    # the items of a dictionary display with distinct literal keys, in the order written
+                    names_in = {v_.id for v_ in it.func.value.values if isinstance(v_, ast.Name)}
+                    if not any(isinstance(x, ast.Name) and x.id in names_in and isinstance(x.ctx, (ast.Store, ast.Del)) for s_ in st.body for x in ast.walk(s_)):
+                        rows = [ast.Tuple(elts=[k_, v_], ctx=ast.Load()) for k_, v_ in zip(it.func.value.keys, it.func.value.values)]
+                        key = (fi.module.name, None, "<display>")
                 if rows is None:
                     continue
                 tg = st.target
@@ -2095,6 +2104,16 @@ def unroll_constant_tables(repo, ref):
                 _invalidate(owner)
                 done.setdefault(q, []).append(key[2])
         if q in done:
+            # setattr(x, "name", v) as a statement -> x.name = v   (not for names the compiler would mangle)
+            for owner, field, blk in _blocks(fi.node):
+                for j, s_ in enumerate(blk):
+                    c = s_.value if isinstance(s_, ast.Expr) else None
+                    if isinstance(c, ast.Call) and isinstance(c.func, ast.Name) and c.func.id == "setattr" and len(c.args) == 3 and not c.keywords \
+                            and isinstance(c.args[1], ast.Constant) and isinstance(c.args[1].value, str) and c.args[1].value.isidentifier() \
+                            and not c.args[1].value.startswith("__") and not any(isinstance(a_, ast.Starred) for a_ in c.args) and _chain(c.args[0]) is not None \
+                            and not any(isinstance(y, (ast.Call, ast.Await, ast.Yield, ast.YieldFrom, ast.NamedExpr)) for y in ast.walk(c.args[2])):
+                        blk[j] = _fresh_stmt("%s.%s = %s" % (ast.unparse(c.args[0]), c.args[1].value, ast.unparse(c.args[2])), s_, owner)[0]
+                        _invalidate(owner)
             # getattr(x, "name") -> x.name
             for c in [n for n in walk_own(fi.node) if isinstance(n, ast.Call)]:
                 if isinstance(c.func, ast.Name) and c.func.id == "getattr" and len(c.args) == 2 and not c.keywords and isinstance(c.args[1], ast.Constant) \
@@ -2526,11 +2545,17 @@ def inline_new_helpers(repo, full_ref):
             continue
         # **kwargs that the helper only hands on (`g(x, **kwargs)`) is the caller's own `**kwargs` at the inlined call
         kwname = a.kwarg.arg if a.kwarg else None
-        if kwname is not None and a.args:
-            continue    # (a caller's keyword could collide with a parameter name: only exact for positional-only parameters)
-        if kwname is not None and not all(isinstance(getattr(x, "_parent", None), ast.keyword) and x._parent.arg is None and isinstance(x.ctx, ast.Load)
-                                          for x in ast.walk(h.node) if isinstance(x, ast.Name) and x.id == kwname):
-            continue
+        kwmode = None
+        if kwname is not None:
+            kuses = [x for x in ast.walk(h.node) if isinstance(x, ast.Name) and x.id == kwname]
+            if kuses and all(isinstance(getattr(x, "_parent", None), ast.keyword) and x._parent.arg is None and isinstance(x.ctx, ast.Load) for x in kuses) and not a.args:
+                kwmode = "forward"      # (a caller's keyword could collide with a parameter name: only exact for positional-only parameters)
+            elif len(kuses) == 1 and isinstance(getattr(kuses[0], "_parent", None), ast.Attribute) and kuses[0]._parent.attr == "items" \
+                    and isinstance(getattr(kuses[0]._parent, "_parent", None), ast.Call) and not kuses[0]._parent._parent.args and not kuses[0]._parent._parent.keywords \
+                    and isinstance(getattr(kuses[0]._parent._parent, "_parent", None), ast.For) and kuses[0]._parent._parent._parent.iter is kuses[0]._parent._parent:
+                kwmode = "dict"         # for k, v in kw.items(): the keywords of the call, in the order written
+            else:
+                continue
         decos = set(h.decorators)
         if decos - {"staticmethod", "classmethod"}:
             continue
@@ -2695,23 +2720,31 @@ def inline_new_helpers(repo, full_ref):
         try:
             for (fi, c, st, form, _, recv) in sites:
                 stars = [k for k in c.keywords if k.arg is None]
-                if any(isinstance(x, ast.Starred) for x in c.args) or (stars and kwname is None):
+                if any(isinstance(x, ast.Starred) for x in c.args) or (stars and kwmode != "forward"):
                     raise _Refuse("star arguments")
-                if kwname is not None and not (len(stars) == 1 and isinstance(stars[0].value, ast.Name) and len(c.keywords) == 1 and len(c.args) == len(call_params)):
+                if kwmode == "forward" and not (len(stars) == 1 and isinstance(stars[0].value, ast.Name) and len(c.keywords) == 1 and len(c.args) == len(call_params)):
                     raise _Refuse("keyword pass-through")
                 argmap = {}
+                extra = []
                 for p_, a_ in zip(call_params, c.args):
                     argmap[p_] = a_
                 for k in c.keywords:
                     if k.arg is None:
+                        continue
+                    if kwmode == "dict" and k.arg not in call_params:
+                        if not isinstance(k.value, (ast.Name, ast.Constant)):
+                            raise _Refuse("keyword value")
+                        extra.append(k)
                         continue
                     if k.arg not in call_params or k.arg in argmap:
                         raise _Refuse("keyword")
                     argmap[k.arg] = k.value
                 prelude = []
                 mapping = {}
-                if kwname is not None:
+                if kwmode == "forward":
                     mapping[kwname] = stars[0].value.id
+                elif kwmode == "dict":
+                    mapping[kwname] = "{%s}" % ", ".join("%r: %s" % (k.arg, ast.unparse(k.value)) for k in extra)
                 for p_ in call_params:
                     if p_ in argmap:
                         e = argmap[p_]
